@@ -252,7 +252,7 @@ example : (relabel g prog).nodes = 3 ∧ nodesSpec g prog = 3 ∧
     lookupCount (relabel g prog).types (.cls 1) = 4 ∧ typeCountSpec prog (.cls 1) = 4 := by
   decide
 
-/-- the `Add` inside the list, the `Lit` inside the tuple inside the list, and the list itself -/
+/-- a node nested inside the list: the `Add` of `Block([Add(Lit, Lit), …])` -/
 example :
     let add := Val.node 2 2 0 [.node 1 3 0 [], .node 1 3 0 []]
     add ∈ Ex.prog.subvalues ∧ (relabel Ex.g add).nodes = 1 ∧
